@@ -32,25 +32,34 @@ def P(strict_ops, rule=None, **kw):
 
 
 PROPS = {
-    "C01": P(["logic"], mc=KMC(["logic"]), rule="every syntactic form of NOT/AND/OR/XOR on structured and random operand pairs for n = 0..14; "
+    "C01": P(["logic"], mc=KMC(["logic"]), machine_ops=["logic"], rule="every syntactic form of NOT/AND/OR/XOR on structured and random operand pairs for n = 0..14; "
              "all pairs x forms for n <= 2 (n = 3 thorough); distinct = distinct (form, operands) content"),
     "C02": P([], mc=KMC(["transforms", "text"]), rule="random call histories (30 calls) over constructors, parser, operators, transforms, cofactoring, mutators, "
              "canonization, successor; every produced table checked for well-formedness, ==/hash/cmp observations and "
              "a value()-rebuilt twin of random slots compared with the original"),
     "C03": P(["flip", "swap", "swapadj", "cofactors", "fromcof"], mc=KMC(["transforms"]),
+             machine_ops=["flip", "swap", "swapadj", "fromcof"],
              rule="for every n = 1..14 and every index (pair) one structured or random table, copying and in-place forms; "
              "thorough: every table of n <= 4"),
-    "C04": P(["canon"], "canonization calls with the walk hook; exact orbit minimum by enumeration in the specification",
+    "C04": P(["canon"], mc=[{"module": "MC_Canon.tla", "cfg": "MC_Canon_q.cfg", "only": "quick"},
+                            {"module": "MC_Canon.tla", "cfg": "MC_Canon_t.cfg", "tier": "thorough", "workers": 16}],
+             rule="canonization calls with the walk hook; exact orbit minimum by enumeration in the specification",
              chunk_weight=2500),
-    "C05": P(["canon"], "canonization certificates applied by the specification's ApplyCert; every representative fed back",
+    "C05": P(["canon"], mc=[{"module": "MC_Canon.tla", "cfg": "MC_Canon_q.cfg", "only": "quick"},
+                            {"module": "MC_Canon.tla", "cfg": "MC_Canon_t.cfg", "tier": "thorough", "workers": 16}],
+             rule="canonization certificates applied by the specification's ApplyCert; every representative fed back",
              chunk_weight=6000),
-    "C06": P(["decomp", "unate"], mc=KMC(["decomp"]), rule="every variable of structured, cofactor-structured and one-bit-off tables, n = 1..12"),
-    "C07": P(["bdd"], "lists of 0..4 functions with shared structure (adders, muxes, symmetric, cofactors, complements), n = 0..11; "
+    "C06": P(["decomp", "unate"], mc=KMC(["decomp"]), machine_ops=["decomp"], rule="every variable of structured, cofactor-structured and one-bit-off tables, n = 1..12"),
+    "C07": P(["bdd"], machine_ops=["bdd"],
+             mc=[{"module": "MC_Bdd.tla", "cfg": "MC_Bdd_K2_q.cfg", "only": "quick"},
+                 {"module": "MC_Bdd.tla", "cfg": "MC_Bdd_K2_t.cfg", "tier": "thorough", "workers": 16},
+                 {"module": "MC_Bdd.tla", "cfg": "MC_Bdd_K3_t.cfg", "tier": "thorough", "workers": 16}],
+             rule="lists of 0..4 functions with shared structure (adders, muxes, symmetric, cofactors, complements), n = 0..11; "
              "every single function of n <= 3"),
-    "C08": P(["rel", "iter_start", "iter_next", "vnext"], mc=KMC(["order"]),
+    "C08": P(["rel", "iter_start", "iter_next", "vnext"], mc=KMC(["order"]), machine_ops=["rel", "vnext"],
              rule="ordering observations on structured pairs/triples (one-bit differences in low/high words), cross-size pairs, "
              "complete iterator runs, hooked successor from tables with all-ones low words"),
-    "C09": P(["text", "from_hex"], mc=KMC(["text"]), rule="all formatting entry points on structured tables; parsing of printed strings, their "
+    "C09": P(["text", "from_hex"], mc=KMC(["text"]), machine_ops=["text"], rule="all formatting entry points on structured tables; parsing of printed strings, their "
              "single-byte mutations, multi-byte characters at chunk boundaries, wrong lengths, exhaustive alphabet strings for n <= 3"),
     "C10": P(["conv_rt", "conv_try", "conv_int"],
              "the same script executed on Lut and on LutN, events compared field by field by the trace specification; "
@@ -58,7 +67,7 @@ PROPS = {
              phases=[{"gen": "C10a", "runs": [("checked", "lut"), ("checked", "lutn")], "validate": [(0, 1)]},
                      {"gen": "C10b", "runs": [("checked", "lut")], "validate": [(0, None)]}],
              count_all=True),
-    "C11": P(CTORS, mc=KMC(["ctors"]), rule="all named constructors, n = 0..14, all i < n, k in 0..n+2 and 63, 64, 65, 2^32, usize::MAX, "
+    "C11": P(CTORS, mc=KMC(["ctors"]), machine_ops=["zero", "one", "parity", "majority", "nth_var", "threshold", "equals"], rule="all named constructors, n = 0..14, all i < n, k in 0..n+2 and 63, 64, 65, 2^32, usize::MAX, "
              "all count masks for n <= 5 and structured/random 64-bit masks above"),
     "C18": P(["optimize"],
              "optimize_sop_mip / optimize_sopes_mip / optimize_esop_mip on all lists of 1..2 functions for n <= 2 and all single "
@@ -85,7 +94,7 @@ PROPS = {
     "C16": P(["t_text", "t_alltext"],
              "printed text of all cubes / exclusive cubes over n <= 4, all forms of <= 2 (3) terms over n <= 3, random forms with "
              "two-digit variable indices; parsed and evaluated by the specification on every assignment"),
-    "C17": P([], "out-of-range indices/assignments, size-mismatched operands, wrong slice lengths on every index-taking "
+    "C17": P([], machine_ops=["nth_var", "flip", "swap", "swapadj", "fromcof", "setbit", "decomp"], rule="out-of-range indices/assignments, size-mismatched operands, wrong slice lengths on every index-taking "
              "method, executed by a debug-assertions+overflow-checks build and by a build without either; valid workload "
              "compared event by event between the two builds",
              phases=[{"gen": "C17", "runs": [("checked", "both"), ("fast", "both")], "validate": [(0, 1), (1, None)]}],
